@@ -228,6 +228,26 @@ def eval_C10(item):
                         any(not np.allclose(sub.dot(v), l * v, atol=1e-8 * span * span) for v, l in zip(V, lam)):
                     res['pred'].append('projected_paxes are not the ordered orthonormal eigenvectors of the projected second moments')
                     break
+    # several live statistic objects built from ONE caller-owned values array: results must not depend on
+    # what was evaluated on the others before, and the caller's array must stay untouched
+    shared = np.array([np.nan if k is None else k / float(2 ** fb) for k in wk], dtype=float)
+    keep = shared.copy()
+    idxs = tuple(np.array([c[i] for c in pos]) for i in range(nd))
+    idxs2 = tuple(np.array([c[i] + item['shift'][i] for c in pos]) for i in range(nd))
+    with warnings.catch_warnings():
+        warnings.simplefilter('ignore')
+        sa, sb = ScalarStatistic(shared, idxs), ScalarStatistic(shared, idxs2)
+        for name in item['calls'][:3]:
+            if name in ('mom2', 'along', 'paxes'):
+                sa.mom2_along(tuple(item['dir'])) if name == 'along' else sa.paxes() if name == 'paxes' else sa.mom2()
+        b0, b1, b2 = float(sb.mom0()), [float(x) for x in sb.mom1()], np.array(sb.mom2(), dtype=float)
+        a2 = np.array(sa.mom2(), dtype=float)
+    if not np.array_equal(shared, keep, equal_nan=True):
+        res['pred'].append('evaluating statistics modified the caller\'s values array')
+    if not close(b0, got['mom0'], float(S)) or any(not close(b1[i], got['mom1'][i] + item['shift'][i], span + 10) for i in range(nd)) \
+            or not np.allclose(b2, got['mom2'], rtol=0, atol=1e-9 * span * span) or not np.allclose(a2, got['mom2'], rtol=0, atol=1e-9 * span * span):
+        res['pred'].append('moments of a statistic object depend on what was evaluated on another live object sharing its values: '
+                           'mom0 %r (expected %r), mom1 %r' % (b0, got['mom0'], b1))
     # principal axes: real, orthonormal, ordered by decreasing variance, eigenvectors of mom2
     px = got['paxes']
     M = got['mom2']
